@@ -217,7 +217,8 @@ def build_workload(group, opts, rng):
             kw["min_log_F_ext"], kw["max_log_F_ext"] = -2.0, 2.0
         if opts["test"] == "cnls":
             # keep the non-linear fits affordable
-            data["n"] = min(n, 8)
+            big = n >= 16 and opts["num_F_ext_evaluations"] == 0 and rng.random() < 0.7
+            data["n"] = min(n, 16) if big else min(n, 8)  # >= 10 fits are needed before the early stop can fire
             data["mask"] = [i for i in mask if i < data["n"]]
             kw["max_nfev"] = 15
             kw["timeout"] = 60
